@@ -95,6 +95,9 @@ def check_string(ctx, utils, st, rel, wf, c, old, new):
             sig = "remap_path:%s:%s" % (kind, c["cl"])
         elif isinstance(got, str) and got.startswith("raise:"):
             sig = "remap_path:%s:raises:%s" % (kind, got[6:])
+        # classes of the repaired defects, recognised on the code's own result (the model no longer has them)
+        elif got == urllib.parse.unquote(ideal):
+            sig = "remap_path:%s:percent-sequence-decoded" % kind
         elif isinstance(got, str) and got != ideal and ideal.startswith(got) and ideal[len(got)] in "#?":
             sig = "remap_path:%s:truncated-at-fragment-or-query-delimiter" % kind
         elif isinstance(got, str) and len(got) == len(ideal) and all(a == b or (b == "+" and a == " ") for a, b in zip(got, ideal)):
@@ -107,6 +110,8 @@ def check_string(ctx, utils, st, rel, wf, c, old, new):
         good = False
         if back == t and got == m and c["cl"] != "none":
             sig = "remap_path:%s:round-trip:%s" % (kind, c["cl"])
+        elif got == urllib.parse.unquote(ideal) and back == urllib.parse.unquote(s):
+            sig = "remap_path:%s:round-trip:percent-sequence-decoded" % kind
         else:
             sig = "remap_path:%s:round-trip:not-identity" % kind
         ctx.violation(sig, detail, "remap %r -> %r -> %r: the round trip %s -> %s -> %s does not restore the value" % (
@@ -290,7 +295,7 @@ def run(ctx):
     dirs, rows, shapes = model(ctx, level, deep)
     ctx.exhaustive = True
     st = {"calls": 0, "disagree": 0, "disagree_outside": 0, "disagree_samples": [], "code_better_than_model": 0,
-          "value_calls": 0, "delims": 0, "plus": 0}
+          "value_calls": 0, "delims": 0, "plus": 0, "pct_plain": 0}
     classes = {}
     pred_mismatch = 0
     nshape = 0
@@ -313,6 +318,8 @@ def run(ctx):
                     st["delims"] += 1
                 if kind in ("path", "loc") and "+" in rel:
                     st["plus"] += 1
+                if kind == "path" and urllib.parse.unquote(inst(c["s"])) != inst(c["s"]):
+                    st["pct_plain"] += 1
                 # the python rendering of the predicate `Same` must agree with the specification's on the model's results
                 if same(kind, inst(c["m"]), inst(c["i"])) != c["ok"] or same(kind, inst(c["t"]), inst(c["s"])) != c["rok"]:
                     pred_mismatch += 1
@@ -336,6 +343,7 @@ def run(ctx):
     ctx.count("strings", len(rows))
     ctx.count("file_urls_with_literal_fragment_or_query_delimiter", st["delims"])
     ctx.count("names_with_literal_plus", st["plus"])
+    ctx.count("plain_paths_with_percent_sequence", st["pct_plain"])
     ctx.count("cases", ctx.programs)
     ctx.count("remap_path_calls", st["calls"])
     ctx.count("remap_token_value_calls", st["value_calls"])
@@ -350,7 +358,7 @@ def run(ctx):
     ctx.sample({"string": inst(mid["r"]), "cases": mid["c"][:2]})
     ctx.impl_trace(st["calls"] + st["value_calls"])
     # vacuity: every class the statement names must have been enumerated
-    ctx.require(classes.get(("path", "percent-sequence-decoded"), 0) > 0 and classes.get(("path", "none"), 0) > 100
+    ctx.require(st["pct_plain"] > 0 and classes.get(("path", "none"), 0) > 100
                 and classes.get(("locq", "none"), 0) > 10 and classes.get(("http", "none"), 0) > 100 and nshape > 1000
                 and st["delims"] > 10 and st["plus"] > 10,
                 "vacuous enumeration: %r" % (classes,))
